@@ -27,6 +27,7 @@ mod tables;
 mod disasm;
 mod cli;
 mod lift;
+mod bextra;
 
 fn main() {
     util::install_panic_hook();
@@ -49,6 +50,7 @@ fn main() {
         "drive-disasm" => disasm::drive(rest),
         "drive-cli" => cli::drive(rest),
         "drive-lift" => lift::drive(rest),
+        "drive-builder-extra" => bextra::drive(rest),
         "dump-disasm-names" => disasm::dump_names(rest),
         other => {
             eprintln!("vh: unknown subcommand {}", other);
